@@ -223,6 +223,10 @@ def cks_extra(tier, seed):
         for ln in ((0, 9) if tier == 'quick' else (0, 1, 2, 9, 64)):
             ipl = rb(12, 'rnd') if (t in (13, 14) and c == 0) else rb(ln)
             out.append({'kind': 'icmp4', 'src': [], 'dst': [], 'hdr': [t, c] + rb(6, 'rnd' if ln else 'ff'), 'payload': ipl})
+    # a timestamp header (20 bytes) with data behind it: not a sliceable message, but the header level API takes a payload
+    for t in (13, 14):
+        for ln in ((1, 8, 33) if tier == 'quick' else (1, 2, 3, 8, 9, 33, 64, 1000)):
+            out.append({'kind': 'icmp4', 'src': [], 'dst': [], 'hdr': [t, 0] + rb(6, 'rnd'), 'payload': rb(12 + ln, 'rnd')})
     for (t, c) in pairs6:
         for ln in ((0, 41) if tier == 'quick' else (0, 1, 16, 41, 64)):
             out.append({'kind': 'icmp6', 'src': rb(16), 'dst': rb(16), 'hdr': [t, c] + rb(6, 'rnd' if ln else 'ff'), 'payload': rb(ln)})
